@@ -108,6 +108,10 @@ func (g *c11gen) hash(d int, typ string) *zygo.SexpHash {
 	used := map[string]bool{}
 	for i := 0; i < n; i++ {
 		k := c11Keys[g.r.N(len(c11Keys))]
+		if g.r.N(150) == 0 {
+			k = []string{"Atype", "zKeyOrder"}[g.r.N(2)]
+			c11UsedReserved = true
+		}
 		if used[k] {
 			continue
 		}
@@ -361,7 +365,26 @@ func init() {
 	})
 }
 
+// c11Run wraps the case: a value that uses one of the encodings' own member names (Atype, zKeyOrder) as a
+// key is judged like any other, but whatever goes wrong with it is filed under one key of its own
+// (a recorded finding: the formats have no escape for these two names).
 func c11Run(c *core.Ctx, i int) *core.Result {
+	c11UsedReserved = false
+	res := c11RunCase(c, i)
+	if c11UsedReserved {
+		res.Ev("values_with_reserved_member_names", 1)
+	}
+	if res.Verdict == core.Violated && c11UsedReserved {
+		res.Key = "member-named-like-the-encodings-own-metadata"
+		res.More = nil
+	}
+	return res
+}
+
+// set by the generator when the case's values use Atype or zKeyOrder as a key (cases run one at a time)
+var c11UsedReserved bool
+
+func c11RunCase(c *core.Ctx, i int) *core.Result {
 	r := core.NewRng(c.Seed, "C11", i, 0)
 	res := &core.Result{}
 	s := NewSutRun(true)
